@@ -310,3 +310,248 @@ Proof.
     subst k'. exists id. rewrite Hx in Hr. split; [exact Hx|exact Hr].
   - intros Hc. destruct (Z.eqb_spec (count_kind k els) 1); [contradiction|]. exact Hr.
 Qed.
+
+(* ---------- result shape of every method, spelled out ---------- *)
+
+Definition ok200 (b : body) : response := {| r_status := 200; r_body := b |}.
+
+(* list calls (Nodes/Ways/Relations, *History, NodeWays, *Relations, Notes, NotesSearch): all
+   elements of the call's kind, in document order, nothing else; an empty list is not an error *)
+Lemma many_returns_kind cfg lim ep k els :
+  options_valid ep = true -> lim <> LimiterFails -> shape_of ep = Many k ->
+  let o := call cfg lim ep (ok200 (BOsm els)) in
+  o_err o = None /\ o_data o = Some (filter (fun e => fst e =? k) els).
+Proof.
+  intros Hv Hl Hs. pose proof (call_result cfg lim ep (ok200 (BOsm els)) Hv Hl) as Hr.
+  cbv zeta in *. unfold spec_result, ok200 in Hr. cbn [r_status r_body Z.eqb Pos.eqb negb] in Hr.
+  rewrite Hs in Hr. exact Hr.
+Qed.
+
+(* WayFull / RelationFull / Map: the whole document, grouped by kind *)
+Lemma whole_returns_document cfg lim ep els :
+  options_valid ep = true -> lim <> LimiterFails -> shape_of ep = Whole ->
+  let o := call cfg lim ep (ok200 (BOsm els)) in
+  o_err o = None /\ o_data o = Some (by_kind els).
+Proof.
+  intros Hv Hl Hs. pose proof (call_result cfg lim ep (ok200 (BOsm els)) Hv Hl) as Hr.
+  cbv zeta in *. unfold spec_result, ok200 in Hr. cbn [r_status r_body Z.eqb Pos.eqb negb] in Hr.
+  rewrite Hs in Hr. exact Hr.
+Qed.
+
+(* ChangesetDownload: a non-nil *osm.Change with the create / modify / delete sections of the
+   osmChange document; no element-count condition (an empty change is a valid result) *)
+Lemma download_returns_sections cfg lim id c m d :
+  lim <> LimiterFails ->
+  let o := call cfg lim (ChangesetDownload id) (ok200 (BChange c m d)) in
+  o_err o = None /\ o_data o = Some (tagged 1 c ++ tagged 2 m ++ tagged 3 d).
+Proof.
+  intros Hl. exact (call_result cfg lim (ChangesetDownload id) (ok200 (BChange c m d)) eq_refl Hl).
+Qed.
+
+Lemma download_of_osm_document_is_empty cfg lim id els :
+  lim <> LimiterFails ->
+  let o := call cfg lim (ChangesetDownload id) (ok200 (BOsm els)) in
+  o_err o = None /\ o_data o = Some [].
+Proof.
+  intros Hl. exact (call_result cfg lim (ChangesetDownload id) (ok200 (BOsm els)) eq_refl Hl).
+Qed.
+
+(* the shape of each call, as a table *)
+Lemma shape_table ep :
+  shape_of ep =
+  match ep with
+  | Get Node _ _ | Version Node _ _ => One 1
+  | Get Way _ _ | Version Way _ _ => One 2
+  | Get Relation _ _ | Version Relation _ _ => One 3
+  | Changeset _ | ChangesetWithDiscussion _ => One 4
+  | Note _ => One 5
+  | User _ => One 6
+  | Multi Node _ _ | History Node _ => Many 1
+  | Multi Way _ _ | History Way _ | NodeWays _ _ => Many 2
+  | Multi Relation _ _ | History Relation _ | RelationsOf _ _ _ => Many 3
+  | Notes _ _ | NotesSearch _ _ => Many 5
+  | Full _ _ _ | Map _ _ => Whole
+  | ChangesetDownload _ => WholeChange
+  end.
+Proof. destruct ep as [[]| []|[]|[]| |[]| | | | | | | | | ]; reflexivity. Qed.
+
+(* Limit is valid exactly in [1, 10000]; MaxDaysClosed always *)
+Lemma notes_options_valid_iff os :
+  forallb nopt_valid os = true <-> (forall n, In (Limit n) os -> 1 <= n <= 10000).
+Proof.
+  rewrite forallb_forall. split.
+  - intros H n Hin. specialize (H _ Hin). cbn in H. lia.
+  - intros H [n|n] Hin; cbn; [specialize (H n Hin); lia|reflexivity].
+Qed.
+
+(* ---------- worlds: redirects and cancellation ---------- *)
+
+Lemma finish_fields m tr1 tr2 err d :
+  o_err (finish m tr1 err d) = o_err (finish m tr2 err d) /\
+  o_data (finish m tr1 err d) = o_data (finish m tr2 err d) /\
+  o_panic (finish m tr1 err d) = o_panic (finish m tr2 err d) /\
+  o_bad (finish m tr1 err d) = o_bad (finish m tr2 err d) /\
+  (o_bad (finish m tr1 err d) = false -> o_trace (finish m tr1 err d) = tr1).
+Proof.
+  unfold finish. destruct err as [t|]; [repeat split|].
+  destruct d as [d|]; [|repeat split; discriminate].
+  destruct (select (m_ret m) d); repeat split; discriminate.
+Qed.
+
+Lemma call_as_finish cfg ep m r :
+  options_valid ep = true -> find_method (method_name ep) = Some m ->
+  call cfg NoLimiter ep r =
+  finish m [request_event cfg ep] (fst (after_response (m_target m) r)) (snd (after_response (m_target m) r)).
+Proof.
+  intros Hv Hm. unfold call. rewrite (url_of_explicit cfg ep Hv), Hm.
+  unfold get_from_api, after_response, finish, request_event.
+  destruct (status_error (r_status r)); [reflexivity|].
+  destruct (decode (m_target m) (r_body r)); reflexivity.
+Qed.
+
+Definition get (u : str) : event := EvRequest "GET" u.
+
+(* the trace of a call in any world *)
+Definition world_trace (cfg : str) (w : world) (ep : endpoint) : list event :=
+  (if waits w ep then [EvWait] else []) ++
+  (if permitted w ep then map get (explicit_url cfg ep :: spec_followed w) else []).
+
+Definition other_error (tr : list event) : outcome :=
+  {| o_trace := tr; o_err := Some ""%string; o_data := None; o_panic := false; o_bad := false |}.
+
+(* what net/http hands back, by cases *)
+Lemma client_do_cases w u :
+  client_do w u =
+  match w_ctx w with
+  | CtxCancelledBefore => ([], TErr)
+  | CtxCancelledDuring => ([get u], TErr)
+  | CtxLive =>
+      match w_hops w with
+      | [] => ([get u], TResp (w_resp w))
+      | _ :: _ =>
+          if w_follow w then
+            if Z.of_nat (List.length (w_hops w)) <=? 9
+            then (map get (u :: w_hops w), TResp (w_resp w))
+            else (map get (u :: firstn 9 (w_hops w)), TErr)
+          else ([get u], TResp {| r_status := w_hop_status w; r_body := BMalformed |})
+      end
+  end.
+Proof. reflexivity. Qed.
+
+Lemma firstn_short {A} n (l : list A) : (List.length l <= n)%nat -> firstn n l = l.
+Proof. apply firstn_all2. Qed.
+
+(* a call in a world = the plain call on the answer net/http hands back, with the world's trace;
+   or an ordinary error when net/http hands back an error or Wait fails *)
+Lemma call_w_decompose cfg w ep :
+  options_valid ep = true ->
+  let o := call_w cfg w ep in
+  o_bad o = false /\ o_panic o = false /\ o_trace o = world_trace cfg w ep /\
+  (permitted w ep = false -> o_err o = Some ""%string /\ o_data o = None) /\
+  (permitted w ep = true ->
+     match snd (client_do w (explicit_url cfg ep)) with
+     | TErr => o_err o = Some ""%string /\ o_data o = None
+     | TResp r => o_err o = o_err (call cfg NoLimiter ep r) /\ o_data o = o_data (call cfg NoLimiter ep r)
+     end).
+Proof.
+  intros Hv. cbv zeta.
+  destruct (method_matches ep) as [m [Hm _]].
+  assert (Hcall : forall r, o_bad (call cfg NoLimiter ep r) = false /\ o_panic (call cfg NoLimiter ep r) = false)
+    by (intros r; apply call_covered).
+  assert (Hfin : forall tr r,
+    let e := fst (after_response (m_target m) r) in let d := snd (after_response (m_target m) r) in
+    o_bad (finish m tr e d) = false /\ o_panic (finish m tr e d) = false /\
+    o_trace (finish m tr e d) = tr /\
+    o_err (finish m tr e d) = o_err (call cfg NoLimiter ep r) /\
+    o_data (finish m tr e d) = o_data (call cfg NoLimiter ep r)).
+  { intros tr r. cbv zeta. destruct (Hcall r) as [Hb Hp].
+    rewrite (call_as_finish cfg ep m r Hv Hm) in *.
+    destruct (finish_fields m tr [request_event cfg ep]
+                (fst (after_response (m_target m) r)) (snd (after_response (m_target m) r)))
+      as [He [Hd [Hp' [Hb' Ht]]]].
+    rewrite Hb', Hp', He, Hd. repeat split; try assumption. apply Ht. rewrite Hb'. exact Hb. }
+  unfold call_w. rewrite (url_of_explicit cfg ep Hv), Hm.
+  unfold get_from_api_w, world_trace, permitted, waits. rewrite Hv. cbn [andb].
+  rewrite client_do_cases. unfold spec_followed.
+  unfold wait_before_do, wait_error_returns.
+  destruct w as [lim cx fol hops hs resp]. cbn [w_lim w_ctx w_follow w_hops w_hop_status w_resp].
+  destruct cx.
+  - (* live *)
+    destruct hops as [|h hops].
+    + destruct fol; destruct lim; cbn [orb negb andb fst snd app map firstn];
+        try (destruct (Hfin [get (explicit_url cfg ep)] resp) as [A [B [C [D E]]]]);
+        try (destruct (Hfin [EvWait; get (explicit_url cfg ep)] resp) as [A' [B' [C' [D' E']]]]);
+        repeat split; try assumption; try discriminate; try reflexivity; intros; try discriminate; auto.
+    + destruct fol.
+      * destruct (Z.leb_spec (Z.of_nat (List.length (h :: hops))) 9) as [Hle|Hgt].
+        -- rewrite (firstn_short 9 (h :: hops)) by lia.
+           destruct lim; cbn [orb negb andb fst snd app map];
+             try (destruct (Hfin (map get (explicit_url cfg ep :: h :: hops)) resp) as [A [B [C [D E]]]]);
+             try (destruct (Hfin (EvWait :: map get (explicit_url cfg ep :: h :: hops)) resp) as [A' [B' [C' [D' E']]]]);
+             repeat split; try assumption; try discriminate; try reflexivity; intros; try discriminate; auto.
+        -- destruct lim; cbn [orb negb andb fst snd app map];
+             repeat split; try reflexivity; intros; try discriminate; auto.
+      * set (r3 := {| r_status := hs; r_body := BMalformed |}).
+        destruct lim; cbn [orb negb andb fst snd app map firstn];
+          try (destruct (Hfin [get (explicit_url cfg ep)] r3) as [A [B [C [D E]]]]);
+          try (destruct (Hfin [EvWait; get (explicit_url cfg ep)] r3) as [A' [B' [C' [D' E']]]]);
+          repeat split; try assumption; try discriminate; try reflexivity; intros; try discriminate; auto.
+  - (* cancelled before *)
+    destruct lim; cbn [orb negb andb fst snd app map];
+      repeat split; try reflexivity; intros; try discriminate; auto.
+  - (* cancelled in flight *)
+    destruct lim; cbn [orb negb andb fst snd app map firstn];
+      repeat split; try reflexivity; intros; try discriminate; auto.
+Qed.
+
+(* the world without redirects and with a live context is the plain call *)
+Lemma call_w_plain cfg lim ep resp : call_w cfg (plain_world lim resp) ep = call cfg lim ep resp.
+Proof.
+  unfold call_w, call. destruct (find_method (method_name ep)) as [m|]; [|reflexivity].
+  destruct (url_of cfg ep) as [u| |]; reflexivity.
+Qed.
+
+Lemma call_w_result cfg w ep :
+  options_valid ep = true -> permitted w ep = true -> w_hop_status w <> 200 ->
+  let o := call_w cfg w ep in
+  match spec_result_w w ep with
+  | XData l => o_err o = None /\ o_data o = Some l
+  | XErr c => class_of (o_err o) = c /\ o_data o = None
+  end.
+Proof.
+  intros Hv Hp Hhs. cbv zeta.
+  destruct (call_w_decompose cfg w ep Hv) as [_ [_ [_ [_ Hr]]]]. specialize (Hr Hp).
+  rewrite client_do_cases in Hr. unfold spec_result_w.
+  assert (Hplain : forall r,
+    match spec_result ep r with
+    | XData l => o_err (call cfg NoLimiter ep r) = None /\ o_data (call cfg NoLimiter ep r) = Some l
+    | XErr c => class_of (o_err (call cfg NoLimiter ep r)) = c /\ o_data (call cfg NoLimiter ep r) = None
+    end) by (intros r; apply (call_result cfg NoLimiter ep r Hv); discriminate).
+  destruct (w_ctx w) eqn:Ec.
+  - destruct (w_hops w) as [|h hops].
+    + cbn [snd] in Hr. destruct Hr as [He Hd]. rewrite He, Hd. apply Hplain.
+    + destruct (w_follow w).
+      * destruct (Z.of_nat (List.length (h :: hops)) <=? 9); cbn [snd] in Hr.
+        -- destruct Hr as [He Hd]. rewrite He, Hd. apply Hplain.
+        -- destruct Hr as [He Hd]. rewrite He, Hd. split; reflexivity.
+      * cbn [snd] in Hr. destruct Hr as [He Hd]. rewrite He, Hd.
+        specialize (Hplain {| r_status := w_hop_status w; r_body := BMalformed |}).
+        unfold spec_result in Hplain. cbn [r_status] in Hplain.
+        destruct (Z.eqb_spec (w_hop_status w) 200) as [E|E]; [contradiction|].
+        exact Hplain.
+  - unfold permitted in Hp. rewrite Hv, Ec in Hp. destruct (w_lim w); cbn in Hp; discriminate Hp.
+  - cbn [snd] in Hr. destruct Hr as [He Hd]. rewrite He, Hd. split; reflexivity.
+Qed.
+
+Lemma call_w_refused cfg w ep :
+  options_valid ep = true -> permitted w ep = false ->
+  let o := call_w cfg w ep in
+  (forall m u, ~ In (EvRequest m u) (o_trace o)) /\
+  class_of (o_err o) = COther /\ not_found (o_err o) = false /\ o_data o = None.
+Proof.
+  intros Hv Hp. cbv zeta.
+  destruct (call_w_decompose cfg w ep Hv) as [_ [_ [Ht [Hn _]]]]. destruct (Hn Hp) as [He Hd].
+  rewrite Ht, He, Hd. unfold world_trace. rewrite Hp, app_nil_r.
+  repeat split; try reflexivity.
+  intros m u Hin. destruct (waits w ep); [destruct Hin as [E|[]]; discriminate|destruct Hin].
+Qed.
